@@ -11,6 +11,13 @@ fn parts(tier: Tier) -> Vec<(TKind, usize, usize, bool)> {
     }
 }
 
+fn full_parts(tier: Tier) -> Vec<(TKind, usize, usize)> {
+    match tier {
+        Tier::Quick => vec![(TKind::Model, 2, 2), (TKind::Pci, 1, 1)],
+        Tier::Thorough => vec![(TKind::Model, 2, 4), (TKind::Model, 3, 3), (TKind::Pci, 2, 3), (TKind::MmioLegacy, 2, 3)],
+    }
+}
+
 fn main() {
     let args = report::parse_args();
     vlab::util::install_quiet_panic_hook();
@@ -26,17 +33,32 @@ fn main() {
                 }
             }
         }
+        for tier in [Tier::Quick, Tier::Thorough] {
+            for (t, rounds, dev) in full_parts(tier) {
+                if doc.part == format!("blk-queue-full:{}:rounds={}:dev={}", t.name(), rounds, dev) {
+                    std::process::exit(vlab::replay::replay_dfs(&doc, &move || c14::run_full(t, rounds)));
+                }
+            }
+        }
         eprintln!("unknown part {}", doc.part);
         std::process::exit(2);
     }
     let mut c = Check::new("C14", args.tier, "model_checking");
-    c.rule = "DFS over operation sequences (read/write over 5 sector/length variants incl. 2^32 and 2^64-1, flush, device_id, non-blocking read/write with up to 3 outstanding, device completion of any held request, consumption of the next completion) x 4 feature sets, with the device's status a bounded deviation (OK default; IOERR, UNSUPP, 0xff); reference in-memory disk decoding every chain. distinct = distinct observation signatures".into();
+    c.rule = "DFS over operation sequences (read/write over 5 sector/length variants incl. 2^32 and 2^64-1, flush, device_id, non-blocking read/write with up to 3 outstanding, device completion of any held request, consumption of the next completion) x 4 feature sets, with the device's status a bounded deviation (OK default; IOERR, UNSUPP, 0xff); reference in-memory disk decoding every chain. Parts blk-queue-full: non-blocking requests are submitted until the driver refuses (exactly 5 fit directly and 16 with indirect descriptors on the 16-descriptor queue; the refusal must be QueueFull without side effects and every outstanding chain must still decode as submitted), the device completes them in an explored order (deviation = not the oldest) with explored statuses, each completion must return its own status and data, and the whole is repeated on the recycled queue. distinct = distinct observation signatures".into();
     c.assumptions = vec!["blocking helpers are only called with nothing else in flight (their documented precondition)".into()];
     for (t, d, dev, nb) in parts(args.tier) {
         let part = format!("blk:{}:depth={}:dev={}:nb={}", t.name(), d, dev, nb as u8);
         let mut cfg = DfsConfig::new(&part, dev);
         cfg.wall_cap = Duration::from_secs(if args.tier == Tier::Quick { 40 } else { 1500 });
         let st = dfs::explore(&cfg, &move || c14::run(t, d, nb));
+        c.add_dfs(&part, &st);
+    }
+    // A queue-full of outstanding requests (5 direct, 16 indirect), any completion order, twice.
+    for (t, rounds, dev) in full_parts(args.tier) {
+        let part = format!("blk-queue-full:{}:rounds={}:dev={}", t.name(), rounds, dev);
+        let mut cfg = DfsConfig::new(&part, dev);
+        cfg.wall_cap = Duration::from_secs(if args.tier == Tier::Quick { 30 } else { 1500 });
+        let st = dfs::explore(&cfg, &move || c14::run_full(t, rounds));
         c.add_dfs(&part, &st);
     }
     c.finish();
